@@ -288,6 +288,30 @@ def run_mask_helpers(ctx):
                           case=cj, found_input=oracle_bad, unit=u.name, expected=model.astype(int).tolist(),
                           observed=impl.astype(int).tolist(), broken="correspondence mask-helpers / C09_block_*_closed_form, C09_rank_mask_spec",
                           reproducer="cd /verif && ./check C09 --replay <this file>")
+    # larger block counts / sizes against the documented closed form only (no model call): every (block shape, n_blocks) up to 12 x 12 x 24,
+    # offsets -2..2 (seeded change C09f derived block indices from a float linspace: wrong at (5, 7), (10, 11), (11, 17), ... only)
+    sizes = list(itertools.product(range(1, 13), range(1, 13), range(1, 25)))
+    if ctx.quick:   # a seed-rotated sample: all (1, bw) / (bh, 1) blocks with bw, bh in {5, 7, 10, 11} plus 60 random triples (the calls are eager JAX loops)
+        keep = [t for t in sizes if (t[0] == 1 and t[1] in (5, 7, 10, 11)) or (t[1] == 1 and t[0] in (5, 7, 10, 11))]
+        keep = [keep[int(j)] for j in r.choice(len(keep), size=70, replace=False)]
+        rest = [t for t in sizes if t not in keep]
+        sizes = keep + [rest[int(j)] for j in r.choice(len(rest), size=60, replace=False)]
+    for bh, bw, n in sizes:
+        rr, cc = np.indices((bh * n, bw * n))
+        got = np.asarray(fm.block_diag_mask((bh, bw), n))
+        u.count(("bdiag-large", bh, bw, n), nontrivial=n > 1, tag="bdiag-large")
+        if got.shape != rr.shape or not np.array_equal(got, (rr // bh) == (cc // bw)):
+            ctx.violation(sig="masks.block_diag_mask:pattern-large", what=f"block_diag_mask(({bh}, {bw}), {n}) differs from the documented block-diagonal pattern"
+                          f"{'' if got.shape != rr.shape else ' at ' + str(np.argwhere(got != ((rr // bh) == (cc // bw)))[:3].tolist())}",
+                          case=dict(fn="block_diag_mask", block_shape=[bh, bw], n_blocks=n), found_input=True, unit=u.name, broken="mask-helpers (oracle) / C09_block_diag_closed_form")
+        for k in ((0, -1) if ctx.quick else (-2, -1, 0, 1, 2)):
+            got = np.asarray(fm.block_tril_mask((bh, bw), n, k))
+            ref = np.maximum(0, cc // bw - k) <= rr // bh
+            u.count(("btril-large", bh, bw, n, k), nontrivial=n > 1, tag="btril-large")
+            if got.shape != ref.shape or not np.array_equal(got, ref):
+                ctx.violation(sig="masks.block_tril_mask:pattern-large", what=f"block_tril_mask(({bh}, {bw}), {n}, k={k}) differs from the documented block-lower-triangular pattern"
+                              f"{'' if got.shape != ref.shape else ' at (row, column) ' + str(np.argwhere(got != ref)[:3].tolist())}",
+                              case=dict(fn="block_tril_mask", block_shape=[bh, bw], n_blocks=n, k=k), found_input=True, unit=u.name, broken="mask-helpers (oracle) / C09_block_tril_closed_form")
     # rank arrays of every integer dtype, with values up to the ends of the dtype's range (a sentinel such as INT_MIN for "always
     # visible" inputs, unsigned ranks): the documented pattern is the comparison of the ranks AS INTEGERS (seeded change C09e compared
     # through a difference, which wraps).  Reference: python integers.
